@@ -395,6 +395,39 @@ fn h2f_rel<F: OracleRepr>(f: &Fa, name: &str, dump: &Dump, t: &mut Tape<'_>, o: 
 }
 
 /// fields for which L differs from the block size of the hash (O2): determinism and canonicity only
+/// Security parameters other than 128: `DefaultFieldHasher<Sha256, K>` for the K that keep L = 64 on a 381-bit field
+/// (124..=131), so that RFC 9380 equality can still be claimed (observation O2). L rounds the *sum* bits + k up to
+/// bytes; K not divisible by 8 distinguishes that from rounding the two terms separately.
+fn h2f_k<F: Field, const K: usize>(dst: &[u8], msg: &[u8]) -> Vec<F> {
+    let h = <DefaultFieldHasher<Sha256, K> as HashToField<F>>::new(dst);
+    let a: [F; 2] = h.hash_to_field::<2>(msg);
+    a.to_vec()
+}
+
+fn h2f_secparam_rel<F: OracleRepr>(f: &Fa, name: &str, t: &mut Tape<'_>, o: &mut Obs) -> R {
+    let k = t.pick(&[125usize, 124, 126, 127, 129, 130, 131]);
+    let dst = gen_dst(t, o);
+    let msg = gen_msg(t);
+    let m = f.tw.degree();
+    assert_eq!(rfc::len_per_elem(&f.prime.p, k), 64);
+    o.show(|| format!("{}: DefaultFieldHasher<Sha256, {}>::hash_to_field::<2> msg={} dst={}", name, k, hexb(&msg), hexb(&dst)));
+    o.nt(true);
+    o.class_if(k % 8 != 0, "sec-param-not-multiple-of-8");
+    let got: Vec<F> = no_panic("hash_to_field", || match k {
+        124 => h2f_k::<F, 124>(&dst, &msg),
+        125 => h2f_k::<F, 125>(&dst, &msg),
+        126 => h2f_k::<F, 126>(&dst, &msg),
+        127 => h2f_k::<F, 127>(&dst, &msg),
+        129 => h2f_k::<F, 129>(&dst, &msg),
+        130 => h2f_k::<F, 130>(&dst, &msg),
+        _ => h2f_k::<F, 131>(&dst, &msg),
+    })?;
+    let want = rfc::hash_to_field_k(&msg, &dst, &f.prime.p, m, 2, k);
+    let got_c: Vec<Vec<BigUint>> = got.iter().map(|x| f.tw.flatten(&x.to_o())).collect();
+    ensure!(got_c == want, "hash_to_field.rfc.sec-param", "k = {}: got {:x?} expected {:x?}", k, got_c, want);
+    Ok(())
+}
+
 fn h2f_det_rel<F: OracleRepr, H: FixedOutputReset + Default + Clone>(name: &str, t: &mut Tape<'_>, o: &mut Obs) -> R {
     let n = t.pick(&[2usize, 1, 3, 4, 8]);
     let dst = gen_dst(t, o);
@@ -893,6 +926,12 @@ fn relations(tier: Tier) -> Vec<Rel> {
     h2f!(ark_bls12_381::Fq2, "bls12_381.Fq2", 1500);
     h2f!(ark_bls12_377::Fq, "bls12_377.Fq", 800);
     h2f!(ark_bls12_377::Fq2, "bls12_377.Fq2", 800);
+    {
+        let fa = Arc::new(Fa::new(<ark_bls12_381::Fq as OracleRepr>::tower()));
+        out.push(Rel::new("hash_to_field.sec-param/bls12_381.Fq", q(600), TAPE_MSG, move |t, o| h2f_secparam_rel::<ark_bls12_381::Fq>(&fa, "bls12_381.Fq", t, o)));
+        let fa = Arc::new(Fa::new(<ark_bls12_381::Fq2 as OracleRepr>::tower()));
+        out.push(Rel::new("hash_to_field.sec-param/bls12_381.Fq2", q(600), TAPE_MSG, move |t, o| h2f_secparam_rel::<ark_bls12_381::Fq2>(&fa, "bls12_381.Fq2", t, o)));
+    }
     out.push(Rel::new("hash_to_field.det/bandersnatch.Fq.sha512", q(400), TAPE_MSG, |t, o| {
         h2f_det_rel::<ark_ed_on_bls12_381_bandersnatch::Fq, Sha512>("bandersnatch.Fq/SHA-512", t, o)
     }));
